@@ -46,7 +46,7 @@ RULE = ('chains of 1..3 planes on a fresh Wavefront: amplitude/OPD/mask each sca
         'wavefront looked at again afterwards; masks as float/int/bool/uint8; plane-object histories: 2-4 multiplies on ONE '
         'plane with amplitude/opd/mask updates (setter and in place) and repeated/different wavelengths, each compared with '
         'the plane\'s CURRENT attributes; constructor calls looked at right after construction (amplitude= and amp= alone and together incl. 1 in several spellings and 1x1 arrays, masks of rank 0/2/3/4, masks without a set sample: outcome or exception, amplitude, opd, mask, shape, size, global_mask, pixelscale, focal_length, caller memory); '
-        'Wavefront(..., tilt=) with 0..4 entries as list/tuple/ndarray; every chain in one of the spellings w*p / p*w / p.multiply(w); non-trivial = at least one array attribute and (two planes or a cube)')
+        'Wavefront(..., tilt=) with 0..4 entries as list/tuple/ndarray; every chain in one of the spellings w*p / p*w / p.multiply(w) / w*=p with every wavefront of the chain held and looked at again at the end; chains blocked by two disjoint stops followed by a pupil / an inconsistently sampled plane; non-trivial = at least one array attribute and (two planes or a cube)')
 
 LAM = Fraction(1, 2 ** 20)
 
@@ -330,7 +330,7 @@ def rnd_case(rng, maxn):
             if pl['kind'] != 'Tilt':
                 pl['aform'] = form
     # the three spellings of one multiplication: wavefront * plane, plane * wavefront (Wavefront.__rmul__), plane.multiply
-    c['callform'] = rng.choice(['w*p', 'w*p', 'p*w', 'multiply', 'mixed'])
+    c['callform'] = rng.choice(['w*p', 'w*p', 'p*w', 'multiply', 'mixed', 'w*=p', 'w*=p'])
     if rng.random() < 0.15:
         for pl in planes:
             if pl['kind'] != 'Tilt':
@@ -585,6 +585,30 @@ def rnd_ctor(rng):
     return c
 
 
+def rnd_blocked(rng):
+    """two stops whose openings do not meet leave a wavefront without fields; it is still a wavefront: the next plane's
+    pixel scale is checked, a pupil hands over its focal length, the shape follows the plane - in every call spelling"""
+    n, m = rng.randint(4, 7), rng.randint(4, 7)
+    def stop(r0, r1, c0, c1):
+        a = [[[1, 0] if (r0 <= i < r1 and c0 <= j < c1) else [0, 0] for j in range(m)] for i in range(n)]
+        return {'kind': 'Plane', 'amp': {'a': a}, 'opd': {'s': 0}, 'mask': None, 'pix': ['1/2'], 'focal': None, 'tilt': [],
+                'mdtype': 'float'}
+    planes = [stop(0, 2, 0, 2), stop(n - 2, n, m - 2, m)]
+    kind = rng.choice(['pupil', 'pupil', 'badpix', 'plane'])
+    last = {'kind': 'Pupil' if kind == 'pupil' else 'Plane',
+            'amp': {'a': [[rnd_gauss(rng) for _ in range(m)] for _ in range(n)]} if rng.random() < 0.6 else {'s': [2, 0]},
+            'opd': {'s': 0}, 'mask': None, 'pix': ['1/4'] if kind == 'badpix' else rng.choice([None, ['1/2']]),
+            'focal': rng.choice(['2', '1/2', '10']) if kind == 'pupil' else None, 'tilt': [], 'mdtype': 'float'}
+    if 'a' in last['amp'] and not any(is_nz(v) for row in last['amp']['a'] for v in row):
+        last['amp']['a'][0][0] = [1, 0]
+    planes.append(last)
+    if rng.random() < 0.4:
+        planes.append(dict(last, amp={'s': [1, 1]}, pix=None))
+    return {'op': 'chain', 'L': 1, 'lam': str(LAM), 'wpix': rng.choice([None, ['1/2']]), 'wfocal': None, 'wtilt': None,
+            'planes': planes, 'insert': {'out': [[1] * m for _ in range(n)], 'w': '2'} if rng.random() < 0.5 else None,
+            'callform': rng.choice(['w*p', 'p*w', 'multiply', 'w*=p', 'mixed'])}
+
+
 def rnd_wctor(rng):
     """Wavefront(wavelength, pixelscale, focal_length, tilt=...) with tilt arguments of 0..4 entries in several forms"""
     k = rng.choice([None, 0, 1, 2, 2, 2, 3, 4])
@@ -599,6 +623,8 @@ def generate(rng, tier):
         yield rnd_ctor(rng)
     for _ in range(16 if tier == 'quick' else 200):
         yield rnd_wctor(rng)
+    for _ in range(12 if tier == 'quick' else 150):
+        yield rnd_blocked(rng)
     for _ in range(60 if tier == 'quick' else 600):
         yield rnd_pixchain(rng)
     for _ in range(40 if tier == 'quick' else 500):
@@ -723,6 +749,11 @@ def enc_mask(mk):
 
 
 def enc_plane(pl, L, lam):
+    if pl['kind'] == 'Tilt' and pl['mask'] is not None:
+        # a tilt-type plane with Plane kwargs (mask): stored attributes self.x, self.y, then the plane itself
+        return ([3] + C.enc_q(float(F(pl['y']))) + C.enc_q(float(F(pl['x'])))
+                + enc_amp(pl['amp']) + enc_opd(pl['opd'], L, lam) + enc_mask(pl['mask']) + enc_pix(None)
+                + C.enc_opt(None, None) + enc_tilts([]))
     if pl['kind'] == 'Tilt':
         # lentil.Tilt(x=a, y=b) stores self.x = b, self.y = a; the model carries the stored attributes
         return ([2] + C.enc_q(float(F(pl['y']))) + C.enc_q(float(F(pl['x'])))
@@ -988,12 +1019,17 @@ def mk_plane(pl, L, lam, keep=None):
             kw['amplitude'] = z.real if z.imag == 0 else z
         if pl['opd']['s'] != 0:
             kw['opd'] = float(F(pl['opd']['s']) * lam / L)
+        mkw = {}
+        if pl['mask'] is not None:
+            mk = pl['mask']
+            mkw['mask'] = (cnum(mk['s']).real if 's' in mk else np_mask(mk['a'], pl.get('mdtype', 'float')) if 'a' in mk
+                           else np.array([np_mask(a, pl.get('mdtype', 'float')) for a in mk['c']]))
         if pl.get('assign'):
-            t = lentil.Tilt(x=float(F(pl['x'])), y=float(F(pl['y'])))
+            t = lentil.Tilt(x=float(F(pl['x'])), y=float(F(pl['y'])), **mkw)
             for k, v in kw.items():
                 setattr(t, k, v)
             return t
-        return lentil.Tilt(x=float(F(pl['x'])), y=float(F(pl['y'])), **kw)
+        return lentil.Tilt(x=float(F(pl['x'])), y=float(F(pl['y'])), **kw, **mkw)
     kw = {}
     form = pl.get('aform')
     fac = 2.0 ** (-pl['ascale']) if pl.get('ascale') else 1.0       # exact power-of-two scaling of the amplitude
@@ -1211,6 +1247,18 @@ def run_wctor(c):
     return observe(w)
 
 
+def held_changed(held, raw):
+    """every wavefront a chain produced (and the one it started from) is still referenced by the caller: looked at again
+    after the later multiplications it must show what it showed when it was produced"""
+    for k, (w, before) in enumerate(zip(held, raw)):
+        now = observe(w)
+        if now != before:
+            keys = [key for key in before if now.get(key) != before[key]]
+            return (f'the wavefront after step {k}, still held by the caller, changed after the later multiplications: '
+                    f'{keys[0]} was {before[keys[0]]}, is now {now[keys[0]]}')
+    return None
+
+
 def run_impl(c):
     lentil = C.import_lentil()
     if c['op'] == 'ctor':
@@ -1233,6 +1281,7 @@ def run_impl(c):
                          tilt=None if not c['wtilt'] else [float(F(c['wtilt'][0])), float(F(c['wtilt'][1]))])
     w0 = w
     res = {'steps': [observe(w)], 'err': None, 'insert': None}
+    held, raw = [w], [res['steps'][0]]     # every wavefront of the chain stays referenced; re-observed at the end
     keep = []
     f = 1.0            # product of the power-of-two amplitude scalings applied so far (undone before comparing)
     for k, pl in enumerate(c['planes']):
@@ -1240,18 +1289,25 @@ def run_impl(c):
             p = mk_plane(pl, L, lam, keep)
             cf = c.get('callform', 'w*p')
             if cf == 'mixed':
-                cf = ['w*p', 'p*w', 'multiply'][k % 3]
-            w = (p * w) if cf == 'p*w' else (p.multiply(w) if cf == 'multiply' else w * p)
+                cf = ['w*p', 'p*w', 'multiply', 'w*=p'][k % 4]
+            if cf == 'w*=p':
+                w *= p              # augmented assignment: rebinds the name, the incoming object stays held in `held`
+            else:
+                w = (p * w) if cf == 'p*w' else (p.multiply(w) if cf == 'multiply' else w * p)
         except Exception as e:
             res['err'] = {'step': k, 'err': type(e).__name__}
             res['input_after'] = observe(w0)
+            res['held_changed'] = held_changed(held, raw)
             return res
         f *= 2.0 ** (-pl['ascale']) if pl.get('ascale') else 1.0
         st = observe(w)
+        held.append(w)
+        raw.append(dict(st))          # as observed, before any un-scaling
         if f != 1.0:
             st['field'], st['intensity'] = unscale_view(st['field'], f), unscale_view(st['intensity'], f * f)
         res['steps'].append(st)
     res['input_after'] = observe(w0)       # the wavefront the chain started from, looked at again afterwards
+    res['held_changed'] = held_changed(held, raw)
     res['memory'] = memory_changed(keep)
     ins = c['insert']
     if ins is not None:
@@ -1618,6 +1674,8 @@ def oracle_wctor(c, impl):
 def oracle(c, impl):
     if isinstance(impl, dict) and impl.get('memory'):
         return impl['memory'] + (' by the multiplications' if c['op'] not in ('ctor', 'wctor') else ' by the constructor')
+    if isinstance(impl, dict) and impl.get('held_changed'):
+        return impl['held_changed']
     if c['op'] == 'ctor':
         return oracle_ctor(c, impl)
     if c['op'] == 'wctor':
